@@ -21,3 +21,9 @@ lazy_static::lazy_static! {
         }))
         .unwrap();
 }
+
+/// Verification hook: whether the identifier-boundary suffix is appended to `pattern`.
+#[cfg(feature = "verif")]
+pub fn verif_is_identifier_pattern(pattern: &str) -> bool {
+    LITERAL_IDENTIFIER.is_match(pattern)
+}
